@@ -126,7 +126,8 @@ let run_kzg10 c =
           | Result.Ok (b, draws) ->
             obs1 name "S" (if b then "accept" else "reject");
             obs1 (Printf.sprintf "bdraws.%d" j) "N" (string_of_int (int_of_nat draws))
-          | r -> obs1 name "S" ("model-" ^ class_of r)
+          | Result.Err Result.EOther -> obs1 name "S" "MODEL_TAPE_EXHAUSTED"
+          | r -> obs1 name "S" "refused"
         end)
       (indexed c "batch")
   | r -> obs1 "setup" "S" (class_of r)
@@ -188,6 +189,226 @@ let run_c16 c =
     obs1 "horner" "F" (f_to_str (Poly.eval fo coeffs z))
   | s -> failwith ("unknown c16 sub " ^ s)
 
+(* ---------------- generic pc flow, scheme = marlin ---------------- *)
+let opt_nat_tok s = if s = "none" then None else Some (nat_of_int (int_of_string s))
+let f_opt_to_str = function Some x -> f_to_str x | None -> "none"
+let has_some = function Some _ -> true | None -> false
+let rec take n l = if n <= 0 then [] else match l with [] -> [] | x :: t -> x :: take (n - 1) t
+let rec triples3 = function a :: b :: c :: r -> (int_of_string a, int_of_string b, int_of_string c) :: triples3 r | _ -> []
+let nlabel i : Big_int_Z.big_int = Z.of_int i
+
+let run_pc_marlin c =
+  let fo = fo () in
+  let d = int1 c "max_degree" in
+  let beta = f_of_str (str1 c "beta") and g = f_of_str (str1 c "g")
+  and gamma = f_of_str (str1 c "gamma") and h = f_of_str (str1 c "h") in
+  let su = KZG10.setup fo (nat_of_int d) false beta g gamma h in
+  obs1 "setup" "S" (class_of su);
+  match su with
+  | Result.Ok up ->
+    let sd = int1 c "supported_degree" and sh = int1 c "supported_hiding" in
+    let bounds = match str1 c "bounds" with
+      | "none" -> None | "empty" -> Some []
+      | _ -> Some (List.map (fun x -> nat_of_int (int_of_string x)) (get c "bounds")) in
+    let tr = Marlin.mtrim fo up (nat_of_int sd) (nat_of_int sh) bounds in
+    obs1 "trim" "S" (class_of tr);
+    (match tr with
+     | Result.Ok (ck, vk) ->
+       obs "key_degrees" "N" [ string_of_int (int_of_nat (Marlin.ck_supported fo ck)); string_of_int (int_of_nat ck.Marlin.ck_max_degree);
+                               string_of_int (int_of_nat vk.Marlin.mvk_supported); string_of_int (int_of_nat vk.Marlin.mvk_max) ];
+       let n = int1 c "n" in
+       let lps = Array.init n (fun i ->
+           let k x = Printf.sprintf "%s.%d" x i in
+           { Marlin.lp_label = nlabel (int1 c (k "label")); lp_poly = fs_of c (k "poly");
+             lp_bound = opt_nat_tok (str1 c (k "bound")); lp_hiding = opt_nat_tok (str1 c (k "hiding")) }) in
+       let rng = if str1 c "commit_rng" = "some" then Some (fs_of c "ctape") else None in
+       let cm = Marlin.commit_all fo ck (Array.to_list lps) rng in
+       obs1 "commit" "S" (class_of cm);
+       (match cm with
+        | Result.Ok (cs, draws) ->
+          obs1 "commit_draws" "N" (string_of_int (int_of_nat draws));
+          let cs = Array.of_list cs in
+          Array.iteri (fun i (mc, mr) ->
+              obs (Printf.sprintf "c.%d" i) "G1"
+                (f_to_str mc.Marlin.mc_comm :: (match mc.Marlin.mc_shifted with Some s -> [ f_to_str s ] | None -> []));
+              obs (Printf.sprintf "rand.%d" i) "F" (dash (fs_to mr.Marlin.mr_rand));
+              (match mr.Marlin.mr_shifted with
+               | Some sr -> obs (Printf.sprintf "srand.%d" i) "F" (dash (fs_to sr)) | None -> ())) cs;
+          let lcomm i = { Marlin.lc_label = lps.(i).Marlin.lp_label; lc_comm = fst cs.(i); lc_bound = lps.(i).Marlin.lp_bound } in
+          let npts = int1 c "npts" in
+          let pts = Array.init npts (fun j -> f_of_str (str1 c (Printf.sprintf "pt.%d" j))) in
+          let nops = int1 c "nops" in
+          (* per operation record for the mutated runs *)
+          let recs = Array.make nops None in
+          for t = 0 to nops - 1 do
+            let k x = Printf.sprintf "%s.%d" x t in
+            let op = get c (k "op") in
+            let chal = fs_of c (k "chal") and vchal = fs_of c (k "vchal") in
+            let ident = List.init n (fun i -> i) in
+            let pperm = if has c (k "pperm") then List.map int_of_string (get c (k "pperm")) else ident in
+            let vperm = if has c (k "vperm") then List.map int_of_string (get c (k "vperm")) else ident in
+            match op with
+            | "single" :: pj :: sel ->
+              let pj = int_of_string pj and sel = List.map int_of_string sel in
+              let z = pts.(pj) in
+              let values = List.map (fun i -> Poly.eval fo lps.(i).Marlin.lp_poly z) sel in
+              obs (k "evals") "F" (fs_to values);
+              let items = List.map (fun i -> (lps.(i), snd cs.(i))) sel in
+              let r = Marlin.mopen fo ck items z chal in
+              obs1 (k "open") "S" (class_of r);
+              (match r with
+               | Result.Ok (pf, rest) ->
+                 obs1 (k "nchal") "N" (string_of_int (List.length chal - List.length rest));
+                 obs1 (Printf.sprintf "pf.%d.w" t) "G1" (f_to_str pf.KZG10.pf_w);
+                 obs1 (Printf.sprintf "pf.%d.rv" t) "F" (f_opt_to_str pf.KZG10.pf_random_v);
+                 let d = Marlin.mcheck fo vk (List.map lcomm sel) z values pf vchal in
+                 (match d with
+                  | Result.Ok (b, vrest) ->
+                    obs1 (k "check") "S" (if b then "accept" else "reject");
+                    obs1 (k "nvchal") "N" (string_of_int (List.length vchal - List.length vrest))
+                  | r -> obs1 (k "check") "S" "refused");
+                 recs.(t) <- Some (`Single (pj, sel, values, pf))
+               | _ -> ())
+            | [ "batch"; s ] ->
+              let tr3 = triples3 (get c ("qs." ^ s)) in
+              let qs = List.map (fun (i, zl, pj) -> (lps.(i).Marlin.lp_label, (nlabel zl, pts.(pj)))) tr3 in
+              let ev = List.map (fun (i, _, pj) -> ((lps.(i).Marlin.lp_label, pts.(pj)), Poly.eval fo lps.(i).Marlin.lp_poly pts.(pj))) tr3 in
+              let evm = Marlin.evals_map fo ev in
+              obs (k "evals") "F" (fs_to (List.map snd evm));
+              let items = List.map (fun i -> (lps.(i), snd cs.(i))) pperm in
+              let r = Marlin.mbatch_open fo ck items qs chal in
+              obs1 (k "open") "S" (class_of r);
+              (match r with
+               | Result.Ok (pfs, rest) ->
+                 obs1 (k "nchal") "N" (string_of_int (List.length chal - List.length rest));
+                 obs1 (k "nproofs") "N" (string_of_int (List.length pfs));
+                 List.iteri (fun j pf ->
+                     obs1 (Printf.sprintf "pf.%d.%d.w" t j) "G1" (f_to_str pf.KZG10.pf_w);
+                     obs1 (Printf.sprintf "pf.%d.%d.rv" t j) "F" (f_opt_to_str pf.KZG10.pf_random_v)) pfs;
+                 let vtape = fs_of c (k "vtape") in
+                 let d = Marlin.mbatch_check fo vk (List.map lcomm vperm) qs ev pfs vchal vtape in
+                 (match d with
+                  | Result.Ok ((b, vrest), draws) ->
+                    obs1 (k "check") "S" (if b then "accept" else "reject");
+                    obs1 (k "nvchal") "N" (string_of_int (List.length vchal - List.length vrest));
+                    obs1 (k "check_draws") "N" (string_of_int (int_of_nat draws))
+                  | r -> obs1 (k "check") "S" "refused");
+                 recs.(t) <- Some (`Batch (tr3, pfs, vperm))
+               | _ -> ())
+            | _ -> () (* lc operations: not modelled here *)
+          done;
+          (* ---- mutated verifier runs ---- *)
+          List.iter (fun (m, mv) ->
+              let name = Printf.sprintf "mut.%d" m in
+              let t = int_of_string (List.nth mv 0) and kind = List.nth mv 1 in
+              let args = List.tl (List.tl mv) in
+              let arg i = List.nth args i in
+              if t < nops && has c (Printf.sprintf "mchal.%d" m) then begin
+                let mchal = fs_of c (Printf.sprintf "mchal.%d" m) in
+                let cms = Array.init n lcomm in
+                let swap i j = cms.(i) <- { (cms.(i)) with Marlin.lc_comm = fst cs.(j) } in
+                let comm_mut i kind args =
+                  let cm = cms.(i) in
+                  let mc = cm.Marlin.lc_comm in
+                  match kind with
+                  | "drop_shifted" when has_some mc.Marlin.mc_shifted ->
+                    cms.(i) <- { cm with Marlin.lc_comm = { mc with Marlin.mc_shifted = None }; lc_bound = None }; true
+                  | "drop_shifted_keep_bound" when has_some mc.Marlin.mc_shifted ->
+                    cms.(i) <- { cm with Marlin.lc_comm = { mc with Marlin.mc_shifted = None } }; true
+                  | "relabel_bound" when has_some cm.Marlin.lc_bound ->
+                    cms.(i) <- { cm with Marlin.lc_bound = Some (nat_of_int (int_of_string (List.hd args))) }; true
+                  | "swap_parts" -> (match mc.Marlin.mc_shifted with
+                      | Some s -> cms.(i) <- { cm with Marlin.lc_comm = { Marlin.mc_comm = s; mc_shifted = Some mc.Marlin.mc_comm } }; true
+                      | None -> false)
+                  | _ -> false in
+                let proof_mut pf kind args = match kind with
+                  | "w_add" -> Some { pf with KZG10.pf_w = fo.Field.fadd pf.KZG10.pf_w (f_of_str (List.hd args)) }
+                  | "rv" -> Some { pf with KZG10.pf_random_v = (if List.hd args = "none" then None else Some (f_of_str (List.hd args))) }
+                  | _ -> None in
+                match recs.(t) with
+                | Some (`Single (pj, sel, values, pf)) ->
+                  let pj = ref pj and sel = ref sel and values = ref values and pf = ref pf and ok = ref true in
+                  (match kind with
+                   | "value" -> let k = int_of_string (arg 0) in
+                     if k < List.length !values then values := List.mapi (fun i v -> if i = k then fo.Field.fadd v (f_of_str (arg 1)) else v) !values else ok := false
+                   | "point" -> pj := int_of_string (arg 0)
+                   | "comm_swap" -> swap (int_of_string (arg 0)) (int_of_string (arg 1))
+                   | "proof_from" -> (match (try recs.(int_of_string (arg 0)) with _ -> None) with
+                       | Some (`Single (_, _, _, p2)) -> pf := p2 | _ -> ok := false)
+                   | "sponge_pre" -> ()
+                   | "drop_poly" -> let k = int_of_string (arg 0) in
+                     if k < List.length !sel then begin
+                       sel := List.filteri (fun i _ -> i <> k) !sel; values := List.filteri (fun i _ -> i <> k) !values end else ok := false
+                   | "comm_mut" -> ok := comm_mut (int_of_string (arg 0)) (arg 1) (List.tl (List.tl args))
+                   | "proof_mut" -> (match proof_mut !pf (arg 0) (List.tl args) with Some p -> pf := p | None -> ok := false)
+                   | _ -> ok := false);
+                  if !ok then
+                    obs1 name "S" (decision (match Marlin.mcheck fo vk (List.map (fun i -> cms.(i)) !sel) pts.(!pj) !values !pf mchal with
+                        | Result.Ok (b, _) -> Result.Ok b | Result.Err e -> Result.Err e | Result.Panic -> Result.Panic))
+                | Some (`Batch (tr3, pfs, vperm)) ->
+                  let pv = ref pfs and tr3 = ref tr3 and vperm = ref vperm and ok = ref true in
+                  let deltas = ref [] and newpt = ref None in
+                  let nth_opt l i = try Some (List.nth l i) with _ -> None in
+                  (match kind with
+                   | "value" -> deltas := [ (int_of_string (arg 0), f_of_str (arg 1)) ]
+                   | "cancel" -> let dd = f_of_str (arg 2) in
+                     deltas := [ (int_of_string (arg 0), dd); (int_of_string (arg 1), fo.Field.fopp dd) ]
+                   | "point" -> newpt := Some (int_of_string (arg 0), int_of_string (arg 1))
+                   | "comm_swap" -> swap (int_of_string (arg 0)) (int_of_string (arg 1))
+                   | "comm_mut" -> ok := comm_mut (int_of_string (arg 0)) (arg 1) (List.tl (List.tl args))
+                   | "proof_mut" -> let k = int_of_string (arg 0) in
+                     (match nth_opt !pv k with
+                      | Some p -> (match proof_mut p (arg 1) (List.tl (List.tl args)) with
+                          | Some p2 -> pv := List.mapi (fun i x -> if i = k then p2 else x) !pv | None -> ok := false)
+                      | None -> ok := false)
+                   | "proofs" ->
+                     let len = List.length !pv in
+                     (match arg 0 with
+                      | "perm" -> let a = int_of_string (arg 1) and b = int_of_string (arg 2) in
+                        if a < len && b < len then begin
+                          let pa = List.nth !pv a and pb = List.nth !pv b in
+                          pv := List.mapi (fun i x -> if i = a then pb else if i = b then pa else x) !pv end else ok := false
+                      | "trunc" -> let k = int_of_string (arg 1) in if k < len then pv := take k !pv else ok := false
+                      | "dup" -> let a = int_of_string (arg 1) and b = int_of_string (arg 2) in
+                        if a < len && b < len then begin
+                          let pa = List.nth !pv a in pv := List.mapi (fun i x -> if i = b then pa else x) !pv end else ok := false
+                      | "empty" -> pv := []
+                      | "extend" -> if len > 0 then pv := !pv @ [ List.nth !pv (len - 1) ] else ok := false
+                      | _ -> ok := false)
+                   | "proof_from" -> (match (try recs.(int_of_string (arg 0)) with _ -> None) with
+                       | Some (`Batch (_, p2, _)) -> pv := p2 | _ -> ok := false)
+                   | "sponge_pre" -> ()
+                   | "vperm" -> vperm := List.map int_of_string args
+                   | "drop_query" -> let k = int_of_string (arg 0) in
+                     if k < List.length !tr3 then tr3 := List.filteri (fun i _ -> i <> k) !tr3 else ok := false
+                   | _ -> ok := false);
+                  if !ok then begin
+                    let usept pj = match !newpt with Some (o, nw) when o = pj -> nw | _ -> pj in
+                    let qs = List.map (fun (i, zl, pj) -> (lps.(i).Marlin.lp_label, (nlabel zl, pts.(usept pj)))) !tr3 in
+                    let ev = List.map (fun (i, _, pj) -> ((lps.(i).Marlin.lp_label, pts.(usept pj)), Poly.eval fo lps.(i).Marlin.lp_poly pts.(pj))) !tr3 in
+                    let evm = Marlin.evals_map fo ev in
+                    let nk = List.length evm in
+                    if List.exists (fun (k, _) -> k >= nk) !deltas then ()
+                    else begin
+                      let evm = List.mapi (fun i (key, v) ->
+                          List.fold_left (fun v (k, dd) -> if k = i then fo.Field.fadd v dd else v) v !deltas |> fun v -> (key, v)) evm in
+                      let vtape = fs_of c (Printf.sprintf "vtape.%d" t) in
+                      obs1 name "S" (decision (match Marlin.mbatch_check fo vk (List.map (fun i -> cms.(i)) !vperm) qs evm !pv mchal vtape with
+                          | Result.Ok ((b, _), _) -> Result.Ok b | Result.Err e -> Result.Err e | Result.Panic -> Result.Panic))
+                    end
+                  end
+                | None -> ()
+              end)
+            (indexed c "mut")
+        | _ -> ())
+     | _ -> ())
+  | _ -> ()
+
+let run_pc c =
+  match str1 c "scheme" with
+  | "marlin" when has c "beta" -> run_pc_marlin c
+  | _ -> ()
+
 let () =
   let file = Sys.argv.(1) in
   let ic = open_in file in
@@ -201,6 +422,7 @@ let () =
          (match c.kind with
           | "kzg10" -> run_kzg10 c
           | "c16" -> run_c16 c
+          | "pc" -> run_pc c
           | _ -> () (* not modelled: the library run is judged by the implementation-level oracle only *))
        with e -> obs1 "runner_exception" "S" (String.map (fun ch -> if ch = ' ' then '_' else ch) (Printexc.to_string e)));
       print_string ("case " ^ c.id ^ "\n");
